@@ -225,7 +225,8 @@ func (c *Ctx) rulesC08(a *coreAnchors) {
 	fCalled := c.field(pm, "Mutation", "Called")
 	fArgs := c.field(pm, "Mutation", "Args")
 	fRErr := c.field(pm, "recoveryData", "err")
-	var accStore, compStore, prepend, restart ssa.Instruction
+	var accStore, compStore, prepend ssa.Instruction
+	var restarts []ssa.Instruction
 	for _, s := range c.sitesIn(rte, "method:Bool.Store") {
 		args := s.Common().Args
 		if len(args) == 2 {
@@ -247,32 +248,32 @@ func (c *Ctx) rulesC08(a *coreAnchors) {
 	for _, b := range rte.Blocks {
 		for _, ins := range b.Instrs {
 			if g, ok := ins.(*ssa.Go); ok && g.Call.StaticCallee() == hl {
-				restart = g
+				restarts = append(restarts, g)
 			}
 		}
 	}
-	// each must be reached on every path that is past the early returns:
-	// i.e. every source-level return either precedes all of them (early exit
-	// guarded by disposing / IsCalled) or is preceded by all of them
+	// each step must be reached on every path that is past the early returns:
+	// every source-level return either is an early exit (disposing; for the
+	// bookkeeping steps also "exception already being handled") or is
+	// dominated by the step. The loop restart is required on every
+	// non-disposing path: the panicking loop goroutine is gone.
 	steps := []struct {
 		name string
-		ins  ssa.Instruction
-	}{{"IsAccepted.Store(false)", accStore}, {"IsCompleted.Store(true)", compStore}, {"PrependMut(exception mutation)", prepend}, {"go handlerLoop()", restart}}
+		ins  []ssa.Instruction
+	}{{"IsAccepted.Store(false)", []ssa.Instruction{accStore}}, {"IsCompleted.Store(true)", []ssa.Instruction{compStore}}, {"PrependMut(exception mutation)", []ssa.Instruction{prepend}}, {"go handlerLoop()", restarts}}
 	for _, st := range steps {
-		if st.ins == nil {
+		if len(st.ins) == 0 || st.ins[0] == nil {
 			c.fail("C08.must", "recoverToErr performs "+st.name, rte.Pos(), "step missing: the machine would stay wedged or lose the error")
 			continue
 		}
 		okAll := true
+		pos := st.ins[0].Pos()
 		for _, r := range returnsOf(rte) {
 			early := false
 			for _, g := range guardsOf(r.Block()) {
 				if gAtomicLoadTruth("", a.fDisposing, true).Match(g) {
 					early = true
 				}
-				// "don't double handle an exception": state bookkeeping may be
-				// skipped there, but the handler loop must still be restarted
-				// (the panicking loop goroutine is gone)
 				if st.name != "go handlerLoop()" && gCallTruth("", "Mutation", "IsCalled", true).Match(g) {
 					early = true
 				}
@@ -280,11 +281,18 @@ func (c *Ctx) rulesC08(a *coreAnchors) {
 			if early {
 				continue
 			}
-			if !dominatesInstr(st.ins, r) {
+			dom := false
+			for _, in := range st.ins {
+				if dominatesInstr(in, r) {
+					dom = true
+				}
+			}
+			if !dom {
 				okAll = false
+				pos = r.Pos()
 			}
 		}
-		c.check(okAll, "C08.must", "recoverToErr performs "+st.name, st.ins.Pos(), "must dominate every non-early return of recoverToErr")
+		c.check(okAll, "C08.must", "recoverToErr performs "+st.name, pos, "must precede every return of recoverToErr except the disposing exit (a return is reached without it: after a panic the handler loop goroutine is gone, so skipping the restart wedges the machine)")
 	}
 	if prepend != nil {
 		arg := prepend.(ssa.CallInstruction).Common().Args[1]
